@@ -32,15 +32,19 @@ deriving Repr, Inhabited
 /-- `UnmarshalBinary`: min over the first entries' MinTime starting from MaxInt64,
     max over the last entries' MaxTime starting from MinInt64
     (fixes/C08-timerange-max-time.patch: it started from 0). -/
-def scanMinTime (kes : List KeyEntry) : Int :=
-  kes.foldl (fun m ke => match ke.entries.head? with
-    | some e => if e.MinTime < m then e.MinTime else m
-    | none => m) maxInt64
+def scanMinStep (m : Int) (ke : KeyEntry) : Int :=
+  match ke.entries.head? with
+  | some e => if e.MinTime < m then e.MinTime else m
+  | none => m
 
-def scanMaxTime (kes : List KeyEntry) : Int :=
-  kes.foldl (fun m ke => match ke.entries.getLast? with
-    | some e => if e.MaxTime > m then e.MaxTime else m
-    | none => m) minInt64
+def scanMaxStep (m : Int) (ke : KeyEntry) : Int :=
+  match ke.entries.getLast? with
+  | some e => if e.MaxTime > m then e.MaxTime else m
+  | none => m
+
+def scanMinTime (kes : List KeyEntry) : Int := kes.foldl scanMinStep maxInt64
+
+def scanMaxTime (kes : List KeyEntry) : Int := kes.foldl scanMaxStep minInt64
 
 def mkIndex (kes : List KeyEntry) : Index :=
   { all := kes, live := kes,
